@@ -5,6 +5,7 @@ package ledger
 import (
 	"errors"
 	"fmt"
+	"strings"
 	"testing"
 	"time"
 
@@ -23,7 +24,8 @@ import (
 // SUT: the agent's real usageTracker driven through the agent's real
 // sendUsageReport (agent/verif_hooks_c34.go builds an Agent literal around a
 // harness-supplied OpAMP client, as agent_test.go does). The client is scripted
-// per report: accept / pending-then-accept / pending-then-reject / reject.
+// per attempt: every SendCustomMessage is answered accept / reject / pending
+// (so pending>accept, pending>reject and pending>pending all occur).
 // Oracle: a ledger. Every accepted payload is decoded with pdata's JSON
 // unmarshaler and added per signal; after every accepted report everything that
 // had been sampled before that report was generated must have been delivered
@@ -34,7 +36,12 @@ type c34Op struct {
 	Op      string  `json:"op"` // grow | tick | growtick | report
 	Signal  string  `json:"signal,omitempty"`
 	D       int64   `json:"d,omitempty"`
-	Outcome string  `json:"outcome,omitempty"` // ok | pending-ok | pending-fail | fail
+	// report: the client's answer to each successive SendCustomMessage of this
+	// report: accept | reject | pending (an answer after a terminal one is unused;
+	// calls beyond the list are rejected).
+	Replies []string `json:"replies,omitempty"`
+	// Outcome is the older spelling kept for replay files: ok | pending-ok | pending-fail | fail
+	Outcome string `json:"outcome,omitempty"`
 	Mid     []c34Op `json:"mid,omitempty"`     // grow/tick performed by the health loop while the send is in flight
 }
 
@@ -45,7 +52,10 @@ type c34Case struct {
 var (
 	c34Signals  = []string{"traces", "logs", "events_received", "events_dropped"}
 	c34Deltas   = []int64{0, 1, 1, 2, 100, 1 << 20, 1 << 40}
-	c34Outcomes = []string{"ok", "ok", "fail", "fail", "fail", "fail", "fail", "pending-ok", "pending-fail"}
+	// per attempt; the first attempt is "pending" in 3 of 10 reports so that the
+	// retry path (and pending answered by pending again) is exercised
+	c34First = []string{"accept", "accept", "reject", "reject", "reject", "reject", "reject", "pending", "pending", "pending"}
+	c34Retry = []string{"accept", "reject", "pending", "pending"}
 )
 
 func genC34(t *rapid.T) c34Case {
@@ -65,7 +75,9 @@ func genC34(t *rapid.T) c34Case {
 		case k <= 5:
 			return c34Op{Op: "tick"}
 		default:
-			o := c34Op{Op: "report", Outcome: rapid.SampledFrom(c34Outcomes).Draw(t, "outcome")}
+			o := c34Op{Op: "report", Replies: []string{rapid.SampledFrom(c34First).Draw(t, "reply")}}
+			// state-free: later answers are drawn for every report, used only when an attempt is made
+			o.Replies = append(o.Replies, rapid.SampledFrom(c34Retry).Draw(t, "reply2"), rapid.SampledFrom(c34Retry).Draw(t, "reply3"))
 			if rapid.IntRange(0, 3).Draw(t, "hasmid") == 0 {
 				o.Mid = rapid.SliceOfN(basic, 1, 3).Draw(t, "mid")
 			}
@@ -76,6 +88,22 @@ func genC34(t *rapid.T) c34Case {
 }
 
 var errC34Rejected = errors.New("verif: scripted send failure")
+
+// c34Script is the list of client answers of a report op.
+func c34Script(op c34Op) []string {
+	if len(op.Replies) > 0 {
+		return op.Replies
+	}
+	switch op.Outcome { // older replay files
+	case "ok":
+		return []string{"accept"}
+	case "pending-ok":
+		return []string{"pending", "accept"}
+	case "pending-fail":
+		return []string{"pending", "reject"}
+	}
+	return []string{"reject"}
+}
 
 // c34Client is the harness OpAMP client: only SendCustomMessage is ever called
 // by sendUsageReport. Replies are scripted per call.
@@ -212,14 +240,15 @@ func execC34(c c34Case) vkit.Result {
 			}
 		}
 	}
+	lastFail := "" // client answers of the most recent undelivered report
 	failBucket := func() string {
 		switch {
 		case failRun == 0:
 			return "failed-sends-before=0"
 		case failRun == 1:
-			return "failed-sends-before=1"
+			return "failed-sends-before=1/answers=" + lastFail
 		}
-		return "failed-sends-before=2+"
+		return "failed-sends-before=2+/last-answers=" + lastFail
 	}
 	waiting := func(at map[string]int64) (int64, string) {
 		var total int64
@@ -234,16 +263,7 @@ func execC34(c c34Case) vkit.Result {
 	}
 
 	report := func(step int, op c34Op) {
-		switch op.Outcome {
-		case "ok":
-			cl.script = []string{"accept"}
-		case "pending-ok":
-			cl.script = []string{"pending", "accept"}
-		case "pending-fail":
-			cl.script = []string{"pending", "reject"}
-		default:
-			cl.script = []string{"reject"}
-		}
+		cl.script = c34Script(op)
 		cl.calls, cl.accepted, cl.offered = 0, nil, nil
 		atReport := map[string]int64{}
 		for k, v := range sampled {
@@ -256,7 +276,6 @@ func execC34(c c34Case) vkit.Result {
 		}
 		clock.Advance(15 * time.Second)
 		err := ag.SendUsageReport()
-		wantOK := op.Outcome == "ok" || op.Outcome == "pending-ok"
 		if cl.badCap {
 			res.Violate("C34/report/wrong-capability", "step %d: usage report not sent under %q", step, agent.VerifUsageCapability)
 		}
@@ -289,10 +308,22 @@ func execC34(c c34Case) vkit.Result {
 				}
 			}
 		}
-		if wantOK != (err == nil) || wantOK != (len(cl.accepted) == 1) {
-			res.Violate("C34/send-loop/outcome", "step %d: scripted outcome %s, sendUsageReport returned %v, accepted %d", step, op.Outcome, err, len(cl.accepted))
+		// what the client actually answered, attempt by attempt
+		pattern := strings.Join(cl.script[:min(cl.calls, len(cl.script))], ">")
+		if cl.calls > len(cl.script) {
+			pattern += ">reject(unscripted)"
+		}
+		res.Class("answers=" + pattern)
+		if len(cl.accepted) > 1 {
+			res.Violate("C34/send-loop/report-accepted-twice", "step %d: answers %s: the same report was accepted %d times", step, pattern, len(cl.accepted))
+		}
+		// the return value is not part of the statement; what it leads to (completeSend
+		// or not) shows up in the ledger. Counted, not asserted.
+		if (err == nil) != (len(cl.accepted) == 1) {
+			res.Class(fmt.Sprintf("send-loop-returned-%v-with-%d-accepted", err == nil, len(cl.accepted)))
 		}
 		if len(cl.accepted) == 0 {
+			lastFail = pattern
 			if failRun == 0 {
 				w, _ := waiting(atReport)
 				failRunAtStake = w > 0
@@ -334,11 +365,10 @@ func execC34(c c34Case) vkit.Result {
 
 	ops := append([]c34Op(nil), c.Ops...)
 	// forced ending: sample once more and deliver a report, so that "still waiting" is empty
-	ops = append(ops, c34Op{Op: "tick"}, c34Op{Op: "report", Outcome: "ok"})
+	ops = append(ops, c34Op{Op: "tick"}, c34Op{Op: "report", Replies: []string{"accept"}})
 	for i, op := range ops {
 		if op.Op == "report" {
 			report(i, op)
-			res.Class("outcome=" + op.Outcome)
 		} else {
 			basic(op)
 		}
@@ -360,7 +390,7 @@ func execC34(c c34Case) vkit.Result {
 func TestC34(t *testing.T) {
 	vkit.Run(t, vkit.Spec[c34Case]{
 		ID:   "C34",
-		Rule: "rapid-generated histories of counter growth (4 signals), health-loop samplings (usageTracker.Add of cumulative readings) and report attempts with scripted outcome (accepted / pending then accepted / pending then rejected / rejected), optionally with growth+sampling while the send is in flight, executed by the agent's real sendUsageReport over a scripted OpAMP client; every case ends with a forced sampling and accepted report. Ledger oracle after every accepted report. Non-trivial: >=2 consecutive undelivered reports while usage was waiting. Distinct = distinct case JSON.",
+		Rule: "rapid-generated histories of counter growth (4 signals), health-loop samplings (usageTracker.Add of cumulative readings) and report attempts with scripted outcome (each SendCustomMessage of a report is answered accept / reject / pending per attempt, so pending>accept, pending>reject and pending>pending occur), optionally with growth+sampling while the send is in flight, executed by the agent's real sendUsageReport over a scripted OpAMP client; every case ends with a forced sampling and accepted report. Ledger oracle after every accepted report. Non-trivial: >=2 consecutive undelivered reports while usage was waiting. Distinct = distinct case JSON.",
 		Assumptions: []string{
 			"cumulative readings never decrease and are integers below 2^53 (premise of the statement: counter growth)",
 			"a report counts as successfully sent when SendCustomMessage accepted it (returned no error) and its channel closed; a rejected or pending call delivered nothing",
